@@ -36,10 +36,20 @@ def _codes(s):
     return [ord(c) for c in s]
 
 
-def enc(v):
+_types = []
+
+
+def _load_types():
     from markupsafe import Markup
     from jinja2.runtime import Undefined
 
+    _types[:] = [Markup, Undefined]
+
+
+def enc(v):
+    if not _types:
+        _load_types()
+    Markup, Undefined = _types
     if isinstance(v, Undefined):
         return {"t": "u", "v": 0}
     if v is None:
@@ -79,6 +89,9 @@ def dec(e):
         return bool(v)
     if t == "n":
         return None
+    if t == "u":
+        from jinja2 import Undefined
+        return Undefined()
     if t == "s":
         return "".join(map(chr, v))
     if t == "m":
@@ -132,8 +145,14 @@ async def _collect(ait):
 
 def materialize(v):
     """Await awaitables and turn (async) iterators into lists."""
+    if not _types:
+        _load_types()
+    if isinstance(v, _types[1]):        # Undefined is iterable, but it is a value
+        return v
     if inspect.isawaitable(v):
         v = run_coro(_await(v))
+        if isinstance(v, _types[1]):
+            return v
     if hasattr(v, "__aiter__") and not isinstance(v, (list, tuple, str, dict)):
         return run_coro(_collect(v))
     if hasattr(v, "__next__"):
@@ -237,6 +256,28 @@ def observe(fn):
 # TLC validation of recorded observations
 # ---------------------------------------------------------------------------
 
+def pack(records):
+    """Batch layout of spec/FTrace.tla: distinct values in a table, records refer to them by
+    1-based index (pure sharing; keeps TLC's JsonDeserialize fast)."""
+    table, vals = {}, []
+
+    def ix(e):
+        k = json.dumps(e, sort_keys=True, separators=(",", ":"))
+        i = table.get(k)
+        if i is None:
+            vals.append(e)
+            i = table[k] = len(vals)
+        return i
+
+    recs = []
+    for r in records:
+        recs.append({"f": r["f"], "name": r.get("name", ""), "inp": ix(r["inp"]), "inp2": ix(r["inp2"]),
+                     "out": ix(r["out"]), "args": {k: ix(v) for k, v in r["args"].items()},
+                     "args2": {k: ix(v) for k, v in r["args2"].items()},
+                     "x": {k: ix(v) for k, v in r.get("x", {}).items()}})
+    return {"vals": vals, "recs": recs}
+
+
 def tlc_validate(ck, module, records, *, batch=6000, parallel=6, label=None, timeout=900, heap="2g"):
     """Validate `records` (JSON-able dicts) with spec/<module>.tla.  Returns
     [(record, why, expected_encoded)] for the records the spec rejects."""
@@ -249,7 +290,7 @@ def tlc_validate(ck, module, records, *, batch=6000, parallel=6, label=None, tim
         i, part = i_part
         d = core.workdir(ck.pid, f"{label}_{i}_in")
         tf = d / "recs.json"
-        tf.write_text(json.dumps(part, separators=(",", ":")))
+        tf.write_text(json.dumps(pack(part), separators=(",", ":")))
         r = core.run_tlc(ck.pid, module, "SPECIFICATION Spec\n", workers=1, env={"TRACE_FILE": str(tf)},
                          name=f"{label}_{i}_tlc", timeout=timeout, heap=heap)
         lines = [ln for ln in r.printed() if ln.startswith('{"rejected"')]
